@@ -22,6 +22,8 @@ DIV_FAMILY = {
     "mod_ss": lambda i, c, r: (i[0], i[1], "r", 1),
     "mod_sc": lambda i, c, r: (i[0], c[0], "r", 1),
     "mod_cs": lambda i, c, r: (c[0], i[0], "r", 1),
+    "rdivmod_q": lambda i, c, r: (c[0], i[0], "q", 1), "rdivmod_r": lambda i, c, r: (c[0], i[0], "r", 1),
+    "divmod_q": lambda i, c, r: (i[0], i[1], "q", 1), "divmod_r": lambda i, c, r: (i[0], c[0], "r", 1),
     "rshift_ss": lambda i, c, r: (i[0], 1 << i[1] if 0 <= i[1] < 64 else 0, "q", 1),
     "rshift_cs": lambda i, c, r: (c[0], 1 << i[0] if 0 <= i[0] < 64 else 0, "q", 1),
     "fmul_ff": lambda i, c, r: (rep(i[0], r) * rep(i[1], r), 1 << r, "q", 1),
@@ -198,11 +200,15 @@ def special_case(kind, bl, rnd):
                          # selections between a bit and an integer the prover chooses: if the result is typed boolean it must be one
                          "if_then_else(c0, c0 & c0, t)", "if_then_else(c0, t, ~c0)", "if_then_else(c0, LinCombBool(t), t)",
                          "if_then_else(c0, c0, t * t)"])
-        first = rnd.choice(["none", "guarded", "lazy", "ignore"])
-        pre = {"none": "", "guarded": "@guarded(c0)\ndef _b():\n    return %s\n_b()\n" % op,
+        first = rnd.choice(["none", "guarded", "lazy", "ignore", "self-guard"])
+        pre = {"none": "", "self-guard": "", "guarded": "@guarded(c0)\ndef _b():\n    return %s\n_b()\n" % op,
                "lazy": "if_then_else(c0, lambda: (%s) + 0, 3)\n" % op,
                "ignore": "import pysnark.runtime as _rt\n_rt.ignore_errors(True)\ntry:\n    _u = %s\nfinally:\n    _rt.ignore_errors(False)\n" % op}[first]
         c.op_src = "t = PrivVal(I[1])\n" + pre + "r = " + op
+        if first == "self-guard":
+            # the region's own condition object (a plain wire, the constant one while the region lasts) declared boolean inside it
+            sop = rnd.choice(["LinCombBool(t)", "LinCombBool(t) & LinCombBool(t)", "~LinCombBool(t)", "LinCombBool(t) | LinCombBool(t)"])
+            c.op_src = "t = PrivVal(I[1])\n@guarded(t)\ndef _b():\n    return %s\nr = _b()" % sop
         if first == "none" and rnd.random() < 0.4:
             # a fresh secret boolean declared from a Python bool / int / the public side: it is the prover's to choose, and a bit
             decl = rnd.choice(["PrivValBool(True)", "PrivValBool(False)", "PrivValBool(1)", "PrivValBool(bool(I[1]))", "PubValBool(True)"])
